@@ -13,6 +13,8 @@ def cycle(s, rng, i):
     """one round of a mixed history: files, history path, project, collision, deleted source, exec events"""
     A, B, H, P = WATCH + "/inc/a.txt", WATCH + "/n", WATCH + "/hist.log", WATCH + "/proj/src/m.c"
     s.exec(3, X + "/elf/vim")
+    s.exec(6, X + "/elf/vim")     # the same editor started again: its loader is already known
+    s.exec(6, X + "/ld.so")
     s.exec(4, X + "/cat")
     # editor-named executables whose image is damaged: every rejection path of the ELF reader
     s.exec(5, X + "/cut/vim")        # ends inside the PT_INTERP segment
